@@ -67,6 +67,21 @@ CHECKS.update({
              technique=TS, ref="6/C18", engine="mossstore", note=STORE_NOTE),
 })
 
+CHECKS.update({
+ "C09": dict(text="TLC checks MossIter (cursor windows, heap order, Next, SeekTo with naive tries and restart, optimize() written as the code is) against the reference iterator for every shape, "
+             "pair of bounds and program of the configuration; the programs are run against real iterators (heap, single-segment and lower-level paths; mem / mossStore / application lower level).",
+             technique="TLA+ model checking (TLC on MossIter) + TLC-generated iterator programs run against the implementation", ref="6/C09", engine="mossiter",
+             note="Trusted: TLC + Json; concretisation of the doubled key domain to prefix-sharing byte strings (and a key set with the empty, 0x00 and 0xFF keys); expected values are the reference iterator's, computed by TLC."),
+ "C14": dict(text="segment_index.go and the windowed binary searches transcribed into MossIndex; TLC evaluates WindowSound/SameAsNoIndex on every (key set, quota, probe) of the configuration; every case is run "
+             "against a persisted segment opened with that quota and with indexing disabled (Get, range start, range end), also with scaled keys and filler keys so that hops above 2 occur.",
+             technique="TLA+ transcription checked by TLC (one implementation test per TLC case)", ref="6/C14", engine="mossindex",
+             note="Trusted: TLC + Json + SequencesExt; letters are concretised to 'a','b'; the real index shape under scaling/filling is not observable through the API (only results are compared)."),
+ "C15": dict(text="TLC checks MossStore!AllClosedAllReleased/SnapFilesExist (reference chain footer -> mappings -> file, with child footers) and MossColl behaviours with snapshots, child snapshots and a store "
+             "snapshot held across persistence, forced compaction, Close and reopen are replayed; held handles are re-read after every step and, after everything is closed (in both orders), "
+             "/proc/self/fd, /proc/self/maps and the directory listing are polled.",
+             technique=T, ref="6/C15"),
+})
+
 NA = {
  "C17": "data races are pairs of unsynchronised memory accesses below the grain of any action of a TLA+ specification; deciding them needs a race detector, a different family of technique (DESIGN.md section 7)",
 }
@@ -102,8 +117,10 @@ def main():
             "add_only": True,
         },
         "engines": [
-            {"name": "mosscoll", "path": "bin/check_coll.py", "serves_properties": [p for p in ["C01","C02","C04","C08","C10","C11","C13","C19","C20"] if p in CHECKS],
+            {"name": "mosscoll", "path": "bin/check_coll.py", "serves_properties": [p for p in ["C01","C02","C04","C08","C10","C11","C13","C15","C19","C20"] if p in CHECKS],
              "kind_free_text": "TLC on specs/MossColl.tla (MCColl.tla) + harness/cmd/replay (direction A: TLC behaviours replayed into the gated implementation)"},
+            {"name": "mossiter", "path": "bin/check_iter.py", "serves_properties": ["C09"], "kind_free_text": "TLC on specs/MossIter.tla + harness/cmd/iterreplay"},
+            {"name": "mossindex", "path": "bin/check_index.py", "serves_properties": ["C14"], "kind_free_text": "TLC on specs/MossIndex.tla + harness/cmd/indexreplay"},
             {"name": "mossstore", "path": "bin/check_store.py", "serves_properties": [p for p in ["C05","C06","C07","C12","C18"] if p in CHECKS],
              "kind_free_text": "TLC on specs/MossStore.tla (MCStore.tla) + harness/cmd/storereplay (rounds forced through Store.Persist options, fault injection and crash-image materialisation through the recorded File)"},
         ],
